@@ -28,6 +28,11 @@ def main(argv=None):
         repo = Repo(args.repo)
         chk = Check(pid, repo, args.tier, seed)
         mod.run(chk)
+        # shared structural rule: the property's own functions do not recurse once per step along the circuit (see structural.py)
+        from .structural import PATH_RECURSION_ANCHORS, path_recursion_rule
+
+        if pid in PATH_RECURSION_ANCHORS:
+            path_recursion_rule(chk, repo, f"{pid}.R.call-depth", PATH_RECURSION_ANCHORS[pid])
         if args.tier == "thorough" and not args.replay and args.repo is None and not os.environ.get("CGSTATIC_NO_SELFTEST"):
             # test the checker both ways on scratch copies (tests the *checker*, never decides the property)
             import subprocess
